@@ -684,11 +684,14 @@ class Unit:
                         if "r10" in opts:
                             # R10 inside the unparsed macro body: only the simple form `ident?`
                             conv = "e__" if "r3id" in opts else "From::from(e__)"    # r3id: the error types are equal (identity conversion)
-                            inner, nsub = re.subn(r"\b([A-Za-z_][A-Za-z0-9_]*)\?(?=\s*[;)\n}])",
+                            inner, nsub = re.subn(r"(?<![.\w])([A-Za-z_][A-Za-z0-9_]*)\?(?=\s*[;)\n}])",
                                                   r"(match \1 { Ok(v__) => v__, Err(e__) => { return Err(" + conv + r") } })", inner)
                             if nsub:
                                 self.log("R10", relfile, src, ts, f"{nsub} `ident?` inside select! -> match expansion")
                         arms = parse_select(inner)
+                        for (pat_, fut_, body_) in arms:
+                            if re.match(r"\s*async\b", fut_):
+                                raise Unsupported(f"{where}: select! arm awaits an async block (outside R3)")
                         # cancellation: an arm that loses while it was reading a frame leaves the reader in a state allowed by
                         # next_frame's (proved) loop invariant - modelled by `cancelled_next_frame`
                         cancels = []
@@ -710,27 +713,46 @@ class Unit:
                                     raise Unsupported(f"{where}: select! arm uses a tokio::time future the clock model does not cover: `{fut.strip()}`")
                             self.log("R21", relfile, src, ts, f"select! #{selk}: {len(timers)} timer arm(s) armed against the ghost clock at select entry")
                         timer_hint = "".join(parts.get(("timer", selk), []))
-                        for ai, (pat, fut, body) in enumerate(arms):
-                            others = " ".join(c for cj, c in enumerate(cancels) if cj != ai and c)
-                            cond = "if crate::shims_nondet::nondet() " if ai < len(arms) - 1 else ""
+                        def irrefutable(p_):
+                            return bool(re.fullmatch(r"(mut\s+)?[a-z_][A-Za-z0-9_]*|\(\s*\)|\((\s*(mut\s+)?[a-z_][A-Za-z0-9_]*\s*,?)+\)", p_.strip()))
+
+                        def arm_text(ai, active):
+                            pat, fut, body = arms[ai]
+                            others = " ".join(cancels[cj] for cj in active if cj != ai and cancels[cj])
                             if ai in timers:
                                 th = split_hint(timer_hint) if timer_hint.strip() else ""
-                                out += f"{cond}{{ {others} clk__.fire(&{timers[ai]}); let {pat} = ();{th} {body} }}"
-                            elif "r21" in opts:
-                                won = " ".join(f"clk__.won_against(&{t});" for t in timers.values()) if timers else "clk__.elapse();"
-                                out += f"{cond}{{ {others} let {pat} = {fut}.await; {won} {body} }}"
-                            else:
-                                # `//@arm K|` / `//@armend K|` (K = 10 * select ordinal + arm ordinal): hints right after the arm's
-                                # binding and after its body (the latter only for arms of unit type)
-                                ah = "".join(parts.get(("arm", selk * 10 + ai), []))
-                                aeh = "".join(parts.get(("armend", selk * 10 + ai), []))
-                                ah = split_hint(ah) if ah.strip() else ""
-                                if aeh.strip():
-                                    out += f"{cond}{{ {others} let {pat} = {fut}.await; {ah} {{ {body} }}; {split_hint(aeh)} }}"
-                                else:
-                                    out += f"{cond}{{ {others} let {pat} = {fut}.await; {ah} {body} }}"
-                            if ai < len(arms) - 1:
-                                out += " else "
+                                return f"{{ {others} clk__.fire(&{timers[ai]}); let {pat} = ();{th} {body} }}"
+                            if not irrefutable(pat):
+                                # an arm whose pattern does not match the value its future produced is disabled and the
+                                # select! goes on waiting for the remaining arms (tokio semantics); with none left it panics
+                                rest = [cj for cj in active if cj != ai]
+                                cont = chain(rest) if rest else "{ crate::shims_nondet::select_all_disabled() }"
+                                won = ""
+                                if "r21" in opts:
+                                    won = " ".join(f"clk__.won_against(&{timers[t]});" for t in active if t in timers) if any(t in timers for t in active) else "clk__.elapse();"
+                                self.log("R3", relfile, src, ts, f"select! #{selk} arm {ai}: refutable pattern `{pat}` -> match; on a mismatch the arm is disabled and the remaining arms race on")
+                                return f"{{ let sel_v__{ai} = {fut}.await; {won} match sel_v__{ai} {{ {pat} => {{ {others} {body} }}, _ => {cont} }} }}"
+                            if "r21" in opts:
+                                won = " ".join(f"clk__.won_against(&{timers[t]});" for t in active if t in timers) if any(t in timers for t in active) else "clk__.elapse();"
+                                return f"{{ {others} let {pat} = {fut}.await; {won} {body} }}"
+                            # `//@arm K|` / `//@armend K|` (K = 10 * select ordinal + arm ordinal): hints right after the arm's
+                            # binding and after its body (the latter only for arms of unit type)
+                            ah = "".join(parts.get(("arm", selk * 10 + ai), []))
+                            aeh = "".join(parts.get(("armend", selk * 10 + ai), []))
+                            ah = split_hint(ah) if ah.strip() else ""
+                            if aeh.strip():
+                                return f"{{ {others} let {pat} = {fut}.await; {ah} {{ {body} }}; {split_hint(aeh)} }}"
+                            return f"{{ {others} let {pat} = {fut}.await; {ah} {body} }}"
+
+                        def chain(active, top=False):
+                            t_ = "{ " if len(active) > 1 and not top else ""
+                            for n_, ai in enumerate(active):
+                                t_ += ("if crate::shims_nondet::nondet() " if n_ < len(active) - 1 else "") + arm_text(ai, active)
+                                if n_ < len(active) - 1:
+                                    t_ += " else "
+                            return t_ + (" }" if len(active) > 1 and not top else "")
+
+                        out += chain(list(range(len(arms))), top=True)
                         out += " }"
                         return out + (";" if stmt and not out.endswith(";") else "")
                     ed.fn = fsel
@@ -1594,12 +1616,21 @@ def inline_pulled(u, pulled):
     refactoring verifies as before, a breaking change hidden behind a helper fails its caller's contract.  Helpers that do not qualify
     stay contract-less (their callers' failures are `needs contract`, undecided)."""
     only = {e["fn"]: e for e in getattr(u, "inline_only", [])}
+    alltxt = "".join(t_ for t_, _ in u.segs if isinstance(t_, str))
     for (ty, fn) in pulled:
+        # call sites are recognised by the method NAME: when the unit has another function of that name (`reset`, `new`, ...)
+        # a textual match could inline the helper into a call of the other one - such a helper is never inlined
+        if len(re.findall(r"\bfn\s+" + re.escape(fn) + r"\b", alltxt)) > (0 if fn in only else 1):
+            continue
         if fn in only:
             frec = {"file": only[fn]["file"], "path": only[fn]["path"], "src_line": 0}
             sig, body = only[fn]["sig"], only[fn]["body"]
         else:
-            frec = next((f for f in u.functions if "segs" in f and f["path"].split("#")[0].split("::")[-1] == fn and f.get("ext_body") is False), None)
+            def _base(p_):
+                k_ = p_.split("#")[0].rsplit("::", 1)[0] if "::" in p_ else ""
+                return re.sub(r"<.*", "", k_.split(" for ")[-1]).split("::")[-1].strip()
+            frec = next((f for f in u.functions if "segs" in f and f["path"].split("#")[0].split("::")[-1] == fn and f.get("ext_body") is False
+                         and (not ty or _base(f["path"]) == ty)), None)
             if frec is None:
                 continue
             a, b = frec["segs"]
@@ -1661,12 +1692,25 @@ def inline_pulled(u, pulled):
                     if len(args) != len(names):
                         continue
                     recv = mc.group(1)
-                    btxt = re.sub(r"\bself\b", recv, body.strip()) if has_self and recv != "self" else body.strip()
+                    # `self` of the helper is a reference (unless taken by value): the receiver place is re-borrowed the same way
+                    rk_ = "&mut " if re.match(r"&\s*(?:'\w+\s+)?mut\s+self", msig.group(1).strip()) else ("&" if msig.group(1).strip().startswith("&") else "")
+                    rtxt_ = f"({rk_}{recv})" if rk_ else recv
+                    btxt = re.sub(r"\bself\b", lambda m_: rtxt_, body.strip()) if has_self and recv != "self" else body.strip()
                     binds = ""
                     if names:
                         binds = ("let (" + ", ".join(names) + "): (" + ", ".join(types) + ") = (" + ", ".join(args) + "); ") if len(names) > 1 \
                             else f"let {names[0]}: {types[0]} = {args[0]}; "
-                    out += t[pos:mc.start()] + "{ " + binds + btxt + " }"
+                    if frec["file"] != f2["file"] and frec["file"].startswith("rodbus/src/"):
+                        # a helper of another module: its text names the types of its own module. The arguments are evaluated in
+                        # the caller's scope, then the body runs in a block that sees the public items of the helper's module.
+                        hmod = "crate::" + re.sub(r"(::mod)?$", "", frec["file"][len("rodbus/src/"):-3].replace("/", "::"))
+                        pre_ = "".join(f"let inl_a__{k_} = {a_}; " for k_, a_ in enumerate(args))
+                        if names:
+                            binds = ("let (" + ", ".join(names) + "): (" + ", ".join(types) + ") = (" + ", ".join(f"inl_a__{k_}" for k_ in range(len(args))) + "); ") if len(names) > 1 \
+                                else f"let {names[0]}: {types[0]} = inl_a__0; "
+                        out += t[pos:mc.start()] + "{ " + pre_ + "{ #[allow(unused_imports)] use " + hmod + "::*; " + binds + btxt + " } }"
+                    else:
+                        out += t[pos:mc.start()] + "{ " + binds + btxt + " }"
                     pos = j
                     n_inl += 1
                 if pos:
